@@ -83,7 +83,21 @@ def r1_adoption_kernel(ctx, rule):
         ctx.unk(rule, qual, 'the co-parent loop is not a top-level statement of the kernel')
         return
     after = outcomes(body[idx + 1:], {}, terms)
-    before_ok = all(isinstance(s, ast.Assign) for s in body[:idx])
+    # before the loop: bindings; a shortcut `if <the child has one position only>: return True` (the loop would find no co-parent:
+    # its only position is the parent's own); anything else that can leave the kernel before the co-parents are examined is not decided
+    before_ok = True
+    for s_ in body[:idx]:
+        if isinstance(s_, ast.Assign):
+            continue
+        if isinstance(s_, ast.If) and not s_.orelse and len(s_.body) == 1 and isinstance(s_.body[0], ast.Return) \
+                and const(s_.body[0].value) is True and U(s_.test).replace(' ', '') in (
+                    'len(%s)==1' % role.get('child', 'child'), 'len(%s)==1and%s==0' % (role.get('child', 'child'), role['pos']),
+                    '%s==0andlen(%s)==1' % (role['pos'], role.get('child', 'child'))):
+            continue
+        if any(isinstance(x, (ast.Return, ast.Raise)) for x in ast.walk(s_)):
+            ctx.unk(rule, qual, 'the kernel can return before the co-parents are examined: %s' % U(s_)[:70].replace('\n', ' '), facts)
+            return
+        before_ok = False
     if {(k, d) for k, d, t in after} != {('return', 'True')} or loop.orelse or not before_ok:
         ctx.bad(rule, qual, 'after examining all co-parents: %s' % sorted((k, d) for k, d, t in after),
                 'a parent that no co-parent out-ranks must adopt the child (return True after the loop)', facts, kernel)
@@ -414,7 +428,23 @@ def r6_seeding(ctx, rule):
                         ok = False
                         ctx.bad(rule, qual, 'seed element ' + U(c.args[0]), 'the start node must have index 0 at every '
                                 'position', None, c)
-    if not seeded:
+    # the comprehension spelling: [(r, 0) for r in item['replacements']]
+    for comp in [n for st in loop.body for n in ast.walk(st) if isinstance(n, ast.ListComp)]:
+        if len(comp.generators) == 1 and U(comp.generators[0].iter) == "%s['replacements']" % bv and isinstance(comp.generators[0].target, ast.Name):
+            rv = comp.generators[0].target.id
+            if comp.generators[0].ifs:
+                ok = False
+                ctx.bad(rule, qual, 'seed positions filtered: ' + U(comp)[:70], 'every position of the base structure gets index 0', None, comp)
+            elif isinstance(comp.elt, ast.Tuple) and len(comp.elt.elts) == 2 and U(comp.elt.elts[0]) == rv and const(comp.elt.elts[1]) == 0 \
+                    and not isinstance(const(comp.elt.elts[1]), bool):
+                seeded = True
+            elif isinstance(comp.elt, ast.Tuple) and len(comp.elt.elts) == 2:
+                ok = False
+                ctx.bad(rule, qual, 'seed element ' + U(comp.elt), 'the start node must have index 0 at every position', None, comp)
+    if not seeded and ok and not inner and not any(isinstance(n, ast.ListComp) for st in loop.body for n in ast.walk(st)):
+        ctx.unk(rule, qual, 'the way the start node is built is not of a form this rule knows')
+        ok = False
+    elif not seeded:
         ok = False
         ctx.bad(rule, qual, 'no (replacement, 0) seeding found', 'start node = index 0 at every position of '
                 "item['replacements']", None, loop)
